@@ -62,7 +62,7 @@ def VLOOKUP(
 def MATCH(
         lookup_value: func_xltypes.XlAnything,
         lookup_array: func_xltypes.XlArray,
-        match_type: func_xltypes.XlAnything = 1,
+        match_type: func_xltypes.XlNumber = 1,
 ) -> func_xltypes.XlAnything:
     assert len(lookup_array.values[0]) == 1
 
